@@ -131,6 +131,12 @@ func (e *c18Env) finishReserved(fenceName string, beforeRead func(srv *Server)) 
 			lastProbe = time.Now()
 			stuck, fp = e.leaderWithoutDispatcher(fenceIdx), "stuck:metadata-leader-without-dispatcher"
 		}
+		if stuck == "" && time.Since(waitStart) > 1500*time.Millisecond {
+			if what, stack := e.dispatcherParked(srv, fenceIdx); what != "" {
+				e.failParked(fmt.Sprintf("committed operations up to the fence #%d can never be listed: %s", fenceIdx, what), stack, nil)
+				return
+			}
+		}
 		if stuck != "" {
 			e.absorbAll()
 			ops, _, _ := e.listedOps()
